@@ -174,7 +174,15 @@ func (s *Solver) Assert(t *Term) {
 func (s *Solver) Check(extra *Term, want []*Term, final bool) (Result, []uint64) {
 	s.Queries++
 	start := time.Now()
-	defer func() { s.SolverTime += time.Since(start) }()
+	var queryText string
+	defer func() {
+		d := time.Since(start)
+		s.SolverTime += d
+		if d > time.Second && s.DumpDir != "" && os.Getenv("VERIF_DUMP_SLOW") != "" {
+			s.dumpN++
+			os.WriteFile(fmt.Sprintf("%s/slow%05d_%dms.smt2", s.DumpDir, s.dumpN, d.Milliseconds()), []byte(s.script.String()+strings.TrimPrefix(queryText, "(push 1)\n")), 0o644)
+		}
+	}()
 	if extra != nil {
 		if extra.IsFalse() {
 			return Unsat, nil
@@ -190,7 +198,7 @@ func (s *Solver) Check(extra *Term, want []*Term, final bool) (Result, []uint64)
 		q.WriteString("(assert " + extra.ref() + ")\n")
 	}
 	q.WriteString("(check-sat)\n")
-	queryText := q.String()
+	queryText = q.String()
 
 	if final && s.DumpDir != "" {
 		s.dumpN++
@@ -271,9 +279,7 @@ func (s *Solver) portfolio(queryText string, want []*Term) (Result, []uint64) {
 		r := Unknown
 		first := strings.SplitN(strings.TrimSpace(o), "\n", 2)[0]
 		switch {
-		case strings.Contains(o, "(error"):
-			r = Unknown
-		case first == "sat":
+		case first == "sat" && !strings.Contains(o, "(error"):
 			r = Sat
 		case first == "unsat":
 			r = Unsat
@@ -309,6 +315,12 @@ func (s *Solver) portfolio(queryText string, want []*Term) (Result, []uint64) {
 	cancel()
 	if res == Unknown {
 		s.Unknowns++
+		if os.Getenv("VERIF_DEBUG_SOLVER") != "" {
+			s.dumpN++
+			fn := fmt.Sprintf("/tmp/unknown_%d_%d.smt2", os.Getpid(), s.dumpN)
+			os.WriteFile(fn, []byte(text), 0o644)
+			fmt.Fprintln(os.Stderr, "portfolio unknown:", fn)
+		}
 	}
 	return res, vals
 }
